@@ -52,7 +52,7 @@ ExpectReject(e) == IF e.status = "panic" THEN "" ELSE "ShouldPanic"
 
 CheckReg(e, A, B) ==
     LET s == Sem(e.op, A, B, e.ia, e.iv, e.iw) IN
-    IF ~s.en THEN (IF e.op \in RejectOps /\ A.k # "e" /\ B.k # "e" THEN ExpectReject(e) ELSE "Malformed")
+    IF ~s.en THEN (IF e.op \in RejectOps /\ A.k # "e" /\ (e.b = 0 \/ B.k # "e") THEN ExpectReject(e) ELSE "Malformed")
     ELSE IF e.status # "ok" THEN "Panicked"
     ELSE IF ~e.flag THEN "NotInteger"
     ELSE IF e.kind # s.val.k \/ e.r # s.val.r \/ e.c # s.val.c THEN "Shape"
@@ -155,20 +155,27 @@ NextRegs(e) ==
     ELSE IF ~e.flag THEN [regs EXCEPT ![Target(e)] = Empty]
     ELSE [regs EXCEPT ![Target(e)] = [k |-> e.kind, r |-> e.r, c |-> e.c, d |-> e.d]]
 
+(* TLC re-evaluates a LET definition at every use inside a quantifier or function
+   constructor; values needed more than once are therefore passed as operator arguments
+   (evaluated once). *)
+UpdHits(hs) == [h \in HitNames |-> IF h \in hs THEN hits[h] + 1 ELSE hits[h]]
+
+Judge(e, A, B, cl) ==
+    /\ IF cl = "" THEN nbad' = nbad ELSE Bad(e, cl) /\ nbad' = nbad + 1
+    /\ hits' = UpdHits(HitSet(e, A, B, cl))
+    /\ regs' = NextRegs(e)
+    /\ UNCHANGED ty
+
+OnEvent(e, A, B) == Judge(e, A, B, Check(e, A, B))
+
 Step ==
     LET e == Rec[l] IN
     /\ l <= Len(Rec)
     /\ l' = l + 1
     /\ IF e.ev = "Reset"
        THEN /\ regs' = EmptyRegs /\ ty' = e.ty /\ UNCHANGED <<nbad, hits>>
-       ELSE LET A  == IF e.ev = "Stat" THEN [k |-> e.ik, r |-> e.ir, c |-> e.ic, d |-> e.id] ELSE RegOf(e.a)
-                B  == RegOf(e.b)
-                cl == Check(e, A, B)
-                hs == HitSet(e, A, B, cl)
-            IN  /\ IF cl = "" THEN nbad' = nbad ELSE Bad(e, cl) /\ nbad' = nbad + 1
-                /\ hits' = [h \in HitNames |-> IF h \in hs THEN hits[h] + 1 ELSE hits[h]]
-                /\ regs' = NextRegs(e)
-                /\ UNCHANGED ty
+       ELSE OnEvent(e, IF e.ev = "Stat" THEN [k |-> e.ik, r |-> e.ir, c |-> e.ic, d |-> e.id] ELSE RegOf(e.a),
+                    RegOf(e.b))
 
 Init == /\ l = 1 /\ regs = EmptyRegs /\ ty = "f64" /\ nbad = 0
         /\ hits = [h \in HitNames |-> 0]
